@@ -86,6 +86,8 @@ impl W {
             // enums of mixed field sizes, copies, field writes, equality, strings)
             let mut g = crate::lgen::LGen::new(&s0[1..], s1.first().copied().unwrap_or(0) % 2 == 0);
             g.allow_lists = false;
+            g.main_returns_i32 = true;
+            g.value_returning_outs = true;
             return g.program();
         }
         let mut rets: Vec<Ty> = SCALAR_TYS.to_vec();
